@@ -1,4 +1,5 @@
 import Pycoin.Proofs.Ripemd160
+import Pycoin.Proofs.Murmur3
 import Pycoin.Model.HashPy
 import Pycoin.Model.Bloom
 import Pycoin.Spec.Murmur3
@@ -51,7 +52,64 @@ theorem C19_ripemd160_py_overflow (data : Bytes) (h : 2 ^ 61 ≤ data.length) :
 example : Ripemd160Py.ripemd160 [0x61, 0x62, 0x63] = .ok (ripemd160 [0x61, 0x62, 0x63]) :=
   C19_ripemd160_py_eq_spec _ (by decide)
 
+/-! ## MurmurHash3: the Bloom-filter hash -/
+
+/-- **C19.murmur3_py_eq_spec** — for every byte string and every integer seed (any width, any sign),
+`bloomfilter.murmur3(data, seed)` returns MurmurHash3 x86_32 of `data` under the seed reduced mod 2^32, and does
+not raise.  `data.length < 2^32` is the domain of the reference algorithm (its length parameter is a 32-bit `int`);
+the code's `length & 0xFFFFFFFC` agrees with it exactly there. -/
+theorem C19_murmur3_py_eq_spec (data : Bytes) (seed : Int) (hlen : data.length < 2 ^ 32) :
+    Murmur3Py.murmur3 data seed = .ok ((murmur3 data (lo32 seed)).toNat : Int) :=
+  Murmur3Py.murmur3_py_eq_spec data seed hlen
+
+/-- wider (or negative) seeds act mod 2^32: the seed enters only through its low word -/
+theorem C19_murmur3_seed_mod (data : Bytes) (seed : Int) (hlen : data.length < 2 ^ 32) :
+    Murmur3Py.murmur3 data seed = Murmur3Py.murmur3 data (seed % 2 ^ 32) := by
+  rw [C19_murmur3_py_eq_spec _ _ hlen, C19_murmur3_py_eq_spec _ _ hlen]
+  have : lo32 (seed % 2 ^ 32) = lo32 seed := by
+    apply UInt32.toBitVec_inj.1
+    apply BitVec.eq_of_toNat_eq
+    simp only [lo32_toBitVec, BitVec.toNat_ofInt]
+    have : ((2 ^ 32 : Nat) : Int) = 2 ^ 32 := by decide
+    rw [this, Int.emod_emod_of_dvd _ (Int.dvd_refl _)]
+  rw [this]
+
+/-- the low word of a non-negative seed below 2^32 is the seed itself -/
+theorem C19_murmur3_seed_u32 (s : UInt32) : lo32 (s.toNat : Int) = s := Ripemd160Py.lo32_toNat s
+
+example : Murmur3Py.murmur3 [0x21, 0x43, 0x65] (2 ^ 64 + 1) = .ok ((murmur3 [0x21, 0x43, 0x65] 1).toNat : Int) := by
+  rw [C19_murmur3_py_eq_spec _ _ (by decide)]; rfl
+
 /-! ## compound hashes -/
+
+theorem sha256_length (m : Bytes) : (sha256 m).length = 32 := by
+  simp [sha256, u32be]
+
+/-- **C19.hash160_def** — whichever RIPEMD-160 implementation `get_best_ripemd160` selected (native hashlib,
+PyCrypto, or the bundled pure-Python fallback), `hash160(x)` is `RIPEMD-160(SHA-256(x))` and does not raise. -/
+theorem C19_hash160_def (impl : HashPy.Impl) (data : Bytes) :
+    HashPy.hash160 impl data = .ok (hash160 data) := by
+  cases impl
+  · rfl
+  · rfl
+  · exact C19_ripemd160_py_eq_spec _ (by rw [sha256_length]; decide)
+
+/-- `ripemd160(x).digest()` is the standard digest under every implementation choice -/
+theorem C19_ripemd160_any_impl (impl : HashPy.Impl) (data : Bytes) (h : data.length < 2 ^ 61) :
+    HashPy.ripemd160 impl data = .ok (ripemd160 data) := by
+  cases impl
+  · rfl
+  · rfl
+  · exact C19_ripemd160_py_eq_spec _ h
+
+/-- the fallback is selected exactly when native RIPEMD-160 is disabled by the environment, unlisted or not
+working, and PyCrypto is absent; setting `PYCOIN_USE_PYTHON_RIPEMD160` to a non-empty value never selects native -/
+theorem C19_select (e : HashPy.Env) :
+    (HashPy.getBestRipemd160 e = .native ↔ (e.algListed = true ∧ HashPy.truthy e.envVar = false ∧ e.nativeWorks = true)) ∧
+    (HashPy.getBestRipemd160 e = .purePython ↔
+      (¬ (e.algListed = true ∧ HashPy.truthy e.envVar = false ∧ e.nativeWorks = true) ∧ e.pycrypto = false)) := by
+  obtain ⟨a, v, w, p⟩ := e
+  cases a <;> cases w <;> cases p <;> cases h : HashPy.truthy v <;> simp [HashPy.getBestRipemd160, h]
 
 /-- `double_sha256(x)` is SHA-256 applied twice (definitional composition, as coded) -/
 theorem C19_dsha256_def (data : Bytes) : HashPy.doubleSha256 data = dsha256 data := rfl
